@@ -40,6 +40,15 @@ def hPlan : Handler := handler fun args =>
     pure (.list ((treePlan nb sp kd d).map ofPlanRound))
   | _ => none
 
+/-- `(treedepth (split…) (numblocks…))` ↦ `(depth of the _tree_reduce loop, depth of the last-axis-only variant)` -/
+def hTreeDepth : Handler := handler fun args =>
+  match args with
+  | [sp, nb] => do
+    let sp ← toOptNats? sp
+    let nb ← nb.toNats?
+    pure (SExp.ofNats [treeDepth sp nb, treeDepthLast sp nb])
+  | _ => none
+
 def runRed {β γ : Type} (r : Red Int β γ) (f : γ → SExp) (nb : List Nat) (sp : List (Option Nat))
     (kd : Bool) (d : Nat) (blocks : List (List Int)) : SExp :=
   ofGrid f (r.run nb sp kd d blocks)
@@ -382,7 +391,7 @@ def hAeStep : Handler := handler fun args =>
 end ReduceDriver
 
 def table : List (String × Handler) := [
-  ("plan", ReduceDriver.hPlan), ("treduce", ReduceDriver.hTreduce), ("argreduce", ReduceDriver.hArg),
+  ("plan", ReduceDriver.hPlan), ("treedepth", ReduceDriver.hTreeDepth), ("treduce", ReduceDriver.hTreduce), ("argreduce", ReduceDriver.hArg),
   ("seqscan", ReduceDriver.hSeqScan), ("blelloch", ReduceDriver.hBlelloch),
   ("blsched", ReduceDriver.hBlSched), ("schedok", ReduceDriver.hSchedOk),
   ("mergepct", ReduceDriver.hMergePct),
